@@ -31,7 +31,11 @@ package redis
 //@ spec rkeyOf(key string) string = uninterpreted
 //@ assumed func rKey(key string) string
 //@   ensures r0 == rkeyOf(key)
-//@ assumed func rKeys(keys []string) []string
+//@ func rKeys(keys []string) []string
+//@   props C03
+//@   ensures len(r0) == len(keys) && forall(i, 0, len(keys), r0[i] == rkeyOf(keys[i]))
+//@   loop 1
+//@     invariant keys == keys0 && len(res) == len(keys) && fresh(res) && 0 - 1 <= rangeindex && rangeindex <= len(keys) - 1 && forall(i, 0, rangeindex + 1, res[i] == rkeyOf(keys[i]))
 // "redis: nil" (key absent) is the documented ErrNotExist, every other error is handed on unchanged
 //@ func checkErr(err error) error
 //@   props C02 C03 C06 C07
@@ -131,3 +135,12 @@ package redis
 //@   ensures r0 != nil ==> (r0 == lastGotErr && lastGotKey == key) || (r0 == ctx.err && ctx.err != nil)
 //@   loop 1
 //@     invariant c != nil && c.rdb != nil && ctx != nil && key == key0 && ver == ver0 && 0 < timeout && timeout <= 100000000
+
+// [C03] "GetMany returns ... per key": one slot per key asked for, and a record handed out carries the key of its slot
+//@ func (c *client) GetMany(ctx context.Context, keys ...string) ([]*kvs.Record, error)
+//@   props C03
+//@   requires c != nil && c.rdb != nil
+//@   ensures r1 == nil ==> len(r0) == len(keys) && forall(i, 0, len(keys), r0[i] != nil ==> r0[i].Key == keys[i])
+//@   ensures r1 != nil ==> r0 == nil && (r1 == errors.ErrNotExist || !isClass(r1))
+//@   loop 1
+//@     invariant keys == keys0 && len(result) == len(keys) && fresh(result) && len(res) == len(keys) && 0 - 1 <= rangeindex && rangeindex <= len(res) - 1 && forall(i, 0, len(res), res[i] == nil || typeIs(res[i], string)) && forall(i, 0, len(keys), result[i] != nil ==> allocated(result[i]) && result[i].Key == keys[i])
